@@ -946,6 +946,318 @@ theorem specVerdict_model (p : Params) (l : List Item) (bs : List Nat) (lines : 
   rw [c2] at c3 c4 c5
   simp only [c1, c2, c3, c4, c5, if_true, List.append_nil]
 
+/-! ## interline glue -/
+
+theorem firstBox_pushLine (v : List VNode) (h d : Int) (pen : Bool) :
+    firstBox ((pushLine v h d pen).2).reverse = some d := by
+  unfold pushLine
+  cases pen <;> simp [List.reverse_append, firstBox]
+
+theorem firstBox_nil_of_some {v : List VNode} {d : Int} (h : firstBox v.reverse = some d) : v ≠ [] := by
+  intro e; subst e; simp [firstBox] at h
+
+/-- The invariant of the vertical list while lines are appended: empty, or its last box has a
+depth above `ignore_depth`. -/
+def VOk (v : List VNode) : Prop := v = [] ∨ ∃ d0, firstBox v.reverse = some d0 ∧ d0 > ignoreDepth
+
+theorem interline_tex (B lsl : Int) (hB : B = codeBaselineSkip) :
+    ∀ (lines : List (Int × Int × Bool)) (v : List VNode), VOk v →
+      (∀ x ∈ lines, x.2.1 > ignoreDepth) →
+      (∀ g ∈ texInterlines B lsl (texPrevDepth v) lines, g ≠ TexGlue.lineskip) →
+      interline v lines = (texInterlines B lsl (texPrevDepth v) lines).map TexGlue.toOpt := by
+  intro lines
+  induction lines with
+  | nil => intro v _ _ _; simp [interline, texInterlines]
+  | cons x t ih =>
+    intro v hv hd hg
+    obtain ⟨h, d, pen⟩ := x
+    have hdd : d > ignoreDepth := hd (h, d, pen) (by simp)
+    have hprev' : texPrevDepth (pushLine v h d pen).2 = d := by
+      unfold texPrevDepth; rw [firstBox_pushLine]
+    have hv' : VOk (pushLine v h d pen).2 := Or.inr ⟨d, firstBox_pushLine v h d pen, hdd⟩
+    simp only [interline, texInterlines, List.map_cons]
+    have htail := ih (pushLine v h d pen).2 hv' (fun x hx => hd x (by simp [hx]))
+      (by
+        rw [hprev']
+        intro g hgm
+        exact hg g (by simp [texInterlines, hgm]))
+    rw [hprev'] at htail
+    rw [htail]
+    congr 1
+    have hhead : texAppend B lsl (texPrevDepth v) h ≠ TexGlue.lineskip :=
+      hg _ (by simp [texInterlines])
+    rcases hv with rfl | ⟨d0, hf, hd0⟩
+    · simp [pushLine, texPrevDepth, firstBox, texAppend, TexGlue.toOpt]
+    · have hne := firstBox_nil_of_some hf
+      have hemp : v.isEmpty = false := by cases v <;> simp_all
+      have hpd : texPrevDepth v = d0 := by unfold texPrevDepth; rw [hf]
+      have hld : lastDepth v = d0 := by unfold lastDepth; rw [hf]
+      rw [hpd] at hhead ⊢
+      unfold texAppend at hhead ⊢
+      simp only [hd0, if_true] at hhead ⊢
+      by_cases hl : B - d0 - h < lsl
+      · simp [hl] at hhead
+      · simp only [hl, if_false, TexGlue.toOpt, pushLine, hemp, hld]
+        simp only [Bool.false_eq_true, if_false, Option.some.injEq]
+        omega
+
+/-! ## the text front end -/
+
+/-- The characters a glue-free stretch of the list stands for. -/
+def segChars : List TItem → List Nat
+  | [] => []
+  | x :: t => (match x.chars with | some cs => cs | none => []) ++ segChars t
+
+theorem segChars_append (a b : List TItem) : segChars (a ++ b) = segChars a ++ segChars b := by
+  induction a with
+  | nil => rfl
+  | cons x t ih => simp [segChars, ih, List.append_assoc]
+
+theorem splitAtGlue_seg (L : List TItem) (hL : ∀ x ∈ L, x.isGlue = false)
+    (rest : List (Option (List Nat))) (hd : List Nat) (tl : List (List Nat))
+    (h : splitAtGlue rest = hd :: tl) :
+    splitAtGlue (L.map TItem.chars ++ rest) = (segChars L ++ hd) :: tl := by
+  induction L with
+  | nil => simpa [segChars] using h
+  | cons x L ih =>
+    have hx : x.isGlue = false := hL x (by simp)
+    have ih' := ih (fun y hy => hL y (by simp [hy]))
+    cases x with
+    | glue g => simp [TItem.isGlue] at hx
+    | char c => simp [TItem.chars, splitAtGlue, ih', segChars]
+    | lig c o lb rb => simp [TItem.chars, splitAtGlue, ih', segChars, List.append_assoc]
+    | kern w => simp [TItem.chars, splitAtGlue, ih', segChars]
+    | disc => simp [TItem.chars, splitAtGlue, ih', segChars]
+
+theorem addItem_noGlue (r : RunItem) : ∀ x ∈ addItem r, x.isGlue = false := by
+  cases r <;> simp [addItem] <;> (try split) <;> simp_all [TItem.isGlue]
+
+theorem addWord_noGlue (run : List Nat → List RunItem) (w : List Nat) :
+    ∀ x ∈ addWord run w, x.isGlue = false := by
+  intro x hx
+  simp only [addWord, List.mem_flatMap] at hx
+  obtain ⟨r, _, hr⟩ := hx
+  exact addItem_noGlue r x hr
+
+theorem segChars_addItem (r : RunItem) : segChars (addItem r) = runSpell [r] := by
+  cases r <;> simp [addItem, runSpell] <;> (try split) <;> simp [segChars, TItem.chars]
+
+theorem segChars_flatMap (l : List RunItem) : segChars (l.flatMap addItem) = runSpell l := by
+  induction l with
+  | nil => rfl
+  | cons r t ih =>
+    simp only [List.flatMap_cons, segChars_append, ih, segChars_addItem]
+    cases r <;> simp [runSpell]
+
+theorem addWord_filter_glue (run : List Nat → List RunItem) (w : List Nat) :
+    (addWord run w).filter TItem.isGlue = [] := by
+  rw [List.filter_eq_nil_iff]
+  intro x hx
+  simp [addWord_noGlue run w x hx]
+
+theorem addWords_split_true (run : List Nat → List RunItem) (codes : List Int) (tp : TextParams)
+    (f : Font) (hrun : ∀ w, runSpell (run w) = w) :
+    ∀ (ws : List (List Nat)) (sf : Int),
+      splitAtGlue ((addWords run codes tp f sf true ws).map TItem.chars) = [] :: ws := by
+  intro ws
+  induction ws with
+  | nil => intro sf; simp [addWords, splitAtGlue]
+  | cons w ws ih =>
+    intro sf
+    simp only [addWords, if_true, List.cons_append, List.nil_append, List.map_cons, List.map_append,
+      TItem.chars, splitAtGlue]
+    rw [splitAtGlue_seg (addWord run w) (addWord_noGlue run w) _ [] ws (ih _)]
+    simp [addWord, segChars_flatMap, hrun]
+
+theorem addWords_split_false (run : List Nat → List RunItem) (codes : List Int) (tp : TextParams)
+    (f : Font) (hrun : ∀ w, runSpell (run w) = w) (w : List Nat) (ws : List (List Nat)) (sf : Int) :
+    splitAtGlue ((addWords run codes tp f sf false (w :: ws)).map TItem.chars) = w :: ws := by
+  simp only [addWords, Bool.false_eq_true, if_false, List.nil_append, List.map_append]
+  rw [splitAtGlue_seg (addWord run w) (addWord_noGlue run w) _ [] ws
+    (addWords_split_true run codes tp f hrun ws _)]
+  simp [addWord, segChars_flatMap, hrun]
+
+theorem splitWs_nonempty : ∀ (t : List Nat), ∀ w ∈ splitWs t, w ≠ [] := by
+  intro t
+  induction t with
+  | nil => simp [splitWs]
+  | cons c t ih =>
+    intro w hw
+    simp only [splitWs] at hw
+    split at hw
+    · exact ih w hw
+    · split at hw
+      · simp at hw; subst hw; simp
+      · split at hw
+        · rcases List.mem_cons.mp hw with rfl | h
+          · simp
+          · exact ih w h
+        · split at hw
+          · rename_i w0 ws0 heq
+            rcases List.mem_cons.mp hw with rfl | h
+            · simp
+            · exact ih w (by rw [heq]; simp [h])
+          · simp at hw; subst hw; simp
+
+theorem addWords_glue_count (run : List Nat → List RunItem) (codes : List Int) (tp : TextParams)
+    (f : Font) : ∀ (ws : List (List Nat)) (sf : Int) (pending : Bool),
+      ((addWords run codes tp f sf pending ws).filter TItem.isGlue).length =
+        if pending then ws.length else ws.length - 1 := by
+  intro ws
+  induction ws with
+  | nil => intro sf pending; cases pending <;> simp [addWords]
+  | cons w ws ih =>
+    intro sf pending
+    simp only [addWords, List.filter_append, addWord_filter_glue, List.nil_append, List.length_append,
+      ih _ true, if_true, List.length_cons]
+    cases pending
+    · simp
+    · simp [List.filter, TItem.isGlue]; omega
+
+theorem splitWs_flatten : ∀ (t : List Nat), (splitWs t).flatten = t.filter (fun c => !isWs c) := by
+  intro t
+  induction t with
+  | nil => simp [splitWs]
+  | cons c t ih =>
+    simp only [splitWs]
+    split
+    · rename_i hc
+      rw [List.filter_cons_of_neg (by simp [hc])]; exact ih
+    · rename_i hc
+      have hc' : isWs c = false := by simpa using hc
+      rw [List.filter_cons_of_pos (by simp [hc'])]
+      split
+      · simp
+      · rename_i d t'
+        split
+        · simp only [List.flatten_cons, ih]; simp
+        · split
+          · rename_i w0 ws0 heq
+            rw [heq] at ih
+            simp only [List.flatten_cons] at ih ⊢
+            rw [← ih]; simp
+          · rename_i heq
+            rw [heq] at ih
+            rw [← ih]; simp
+
+theorem splitWs_noWs : ∀ (t : List Nat), ∀ w ∈ splitWs t, ∀ c ∈ w, isWs c = false := by
+  intro t
+  induction t with
+  | nil => simp [splitWs]
+  | cons c t ih =>
+    intro w hw
+    simp only [splitWs] at hw
+    split at hw
+    · exact ih w hw
+    · rename_i hc
+      have hc' : isWs c = false := by simpa using hc
+      split at hw
+      · simp at hw; subst hw; simpa using hc'
+      · split at hw
+        · rcases List.mem_cons.mp hw with rfl | h
+          · simpa using hc'
+          · exact ih w h
+        · split at hw
+          · rename_i w0 ws0 heq
+            rcases List.mem_cons.mp hw with rfl | h
+            · intro x hx
+              rcases List.mem_cons.mp hx with rfl | hx'
+              · exact hc'
+              · exact ih w0 (by rw [heq]; simp) x hx'
+            · exact ih w (by rw [heq]; simp [h])
+          · simp at hw; subst hw; simpa using hc'
+
+def glueItems : List TItem → List (Res Glue)
+  | [] => []
+  | .glue g :: t => g :: glueItems t
+  | _ :: t => glueItems t
+
+theorem glueItems_append (a b : List TItem) : glueItems (a ++ b) = glueItems a ++ glueItems b := by
+  induction a with
+  | nil => rfl
+  | cons x t ih => cases x <;> simp [glueItems, ih]
+
+theorem glueItems_noGlue (l : List TItem) (h : ∀ x ∈ l, x.isGlue = false) : glueItems l = [] := by
+  induction l with
+  | nil => rfl
+  | cons x t ih =>
+    have hx := h x (by simp)
+    cases x <;> simp_all [glueItems, TItem.isGlue]
+
+theorem addWords_glueItems (run : List Nat → List RunItem) (codes : List Int) (tp : TextParams)
+    (f : Font) : ∀ (ws : List (List Nat)) (sf : Int) (pending : Bool),
+      glueItems (addWords run codes tp f sf pending ws) =
+        (addTextGlues codes tp f sf pending ws).filterMap id := by
+  intro ws
+  induction ws with
+  | nil => intro sf pending; simp [addWords, addTextGlues, glueItems]
+  | cons w ws ih =>
+    intro sf pending
+    simp only [addWords, addTextGlues, glueItems_append, glueItems_noGlue _ (addWord_noGlue run w),
+      List.nil_append, ih _ true]
+    cases pending <;> simp [glueItems]
+
+/-! ## `--widths` -/
+
+theorem splitOnChar_ne_nil (sep : Nat) : ∀ l, splitOnChar sep l ≠ [] := by
+  intro l
+  induction l with
+  | nil => simp [splitOnChar]
+  | cons c t ih =>
+    simp only [splitOnChar]
+    split
+    · simp
+    · split <;> simp
+
+theorem splitOnChar_field (sep : Nat) (f rest : List Nat) (hf : ∀ c ∈ f, c ≠ sep) :
+    splitOnChar sep (f ++ sep :: rest) = f :: splitOnChar sep rest := by
+  induction f with
+  | nil => simp [splitOnChar]
+  | cons c t ih =>
+    have hc : c ≠ sep := hf c (by simp)
+    have := ih (fun x hx => hf x (by simp [hx]))
+    simp [splitOnChar, hc, this]
+
+theorem splitOnChar_last (sep : Nat) (f : List Nat) (hf : ∀ c ∈ f, c ≠ sep) :
+    splitOnChar sep f = [f] := by
+  induction f with
+  | nil => simp [splitOnChar]
+  | cons c t ih =>
+    have hc : c ≠ sep := hf c (by simp)
+    have := ih (fun x hx => hf x (by simp [hx]))
+    simp [splitOnChar, hc, this]
+
+theorem trimWs_space (g : List Nat) : trimWs (32 :: g) = trimWs g := by
+  simp [trimWs, List.dropWhile, isTrimWs, isWs]
+
+theorem widthFields_joinComma : ∀ (fs : List (List Nat)), fs ≠ [] →
+    (∀ f ∈ fs, ∀ c ∈ f, c ≠ 44) → widthFields (joinComma fs) = fs.map trimWs := by
+  intro fs
+  induction fs with
+  | nil => intro h; exact absurd rfl h
+  | cons f r ih =>
+    intro _ hc
+    cases r with
+    | nil =>
+      simp [widthFields, joinComma, splitOnChar_last 44 f (hc f (by simp))]
+    | cons g r' =>
+      have ihr := ih (by simp) (fun f' hf' => hc f' (by simp [hf']))
+      simp only [joinComma, widthFields] at ihr ⊢
+      rw [splitOnChar_field 44 f _ (hc f (by simp))]
+      -- the field after the comma starts with the blank written by `joinComma`
+      have hnext : splitOnChar 44 (32 :: joinComma (g :: r')) =
+          match splitOnChar 44 (joinComma (g :: r')) with
+          | w :: ws => (32 :: w) :: ws
+          | [] => [[32]] := by
+        simp [splitOnChar]; rfl
+      rw [hnext]
+      cases hs : splitOnChar 44 (joinComma (g :: r')) with
+      | nil => exact absurd hs (splitOnChar_ne_nil 44 _)
+      | cons w ws =>
+        rw [hs] at ihr
+        simp only [List.map_cons] at ihr ⊢
+        rw [trimWs_space, ihr]
+
 /-! ## inter-word glue -/
 
 theorem scaleBySf_spec (mp : Glue) (extra sf : Int)
